@@ -93,6 +93,7 @@ func runBehaviour(steps []step, suite network.SecureAeadSuite, rnd *rand.Rand) *
 	reader := map[string]*network.SecureConn{"ab": b.Conn, "ba": a.Conn}
 	rcvd := map[string]int{}
 	lastGood := map[string][]byte{}
+	firstGood := map[string][]byte{} // the first frame of the connection, as recorded by the eavesdropper
 	failed := map[string]bool{}
 	attack := ""
 	for i, s := range steps {
@@ -149,6 +150,9 @@ func runBehaviour(steps []step, suite network.SecureAeadSuite, rnd *rand.Rand) *
 			rcvd[s.D] += n
 			if s.I == 1 {
 				lastGood[s.D] = q[s.D].Last
+				if firstGood[s.D] == nil {
+					firstGood[s.D] = q[s.D].Last
+				}
 			}
 			if n != s.Res {
 				return &verdict{"secureaead:read:short", fmt.Sprintf("step %d: Read(buffer %d) returned %d bytes, spec says %d (allowed for a stream, later predictions do not apply)", i, s.N, n, s.Res), false}
@@ -179,6 +183,26 @@ func runBehaviour(steps []step, suite network.SecureAeadSuite, rnd *rand.Rand) *
 				nf := append([][]byte(nil), qq.Frames...)
 				nf[s.I-1], nf[s.I] = nf[s.I], nf[s.I-1]
 				qq.Frames = nf
+			case "replayfar":
+				// honest traffic until the reader expects nonce n0 + far: s.N one-byte writes, each read at once
+				if firstGood[s.D] == nil {
+					return &verdict{"securechan:driver", "replayfar without a delivered frame", false}
+				}
+				one := make([]byte, 1)
+				buf := make([]byte, 16)
+				for k := 0; k < s.N; k++ {
+					one[0] = streamByte(salt, s.D, s.Off+k)
+					if n, err := writer[s.D].Write(one); err != nil || n != 1 {
+						return &verdict{"secureaead:write", fmt.Sprintf("step %d: filler write %d returned (%d, %v)", i, k, n, err), true}
+					}
+					n, err := reader[s.D].Read(buf)
+					if err != nil || n != 1 || buf[0] != one[0] {
+						return &verdict{"secureaead:read:spurious-error", fmt.Sprintf("step %d: filler frame %d of %d (honest traffic): Read returned (%d, %v) (suite %v)", i, k, s.N, n, err, suite), true}
+					}
+				}
+				rcvd[s.D] += s.N
+				attack = fmt.Sprintf("replayfar:%d", s.I)
+				qq.Frames = append([][]byte{firstGood[s.D]}, qq.Frames...)
 			case "replay":
 				if lastGood[s.D] == nil {
 					return &verdict{"securechan:driver", "replay without a delivered frame", false}
